@@ -28,7 +28,6 @@ REPO = '/repo'
 EXPECTED_MISS = {
     'C03-r2-3': 'outside the quantifier (dict default rule)',
     'C09-r5-1': 'breaks reload behaviour (C10 fires), not C09',
-    'C10-r5-3': 'mtime-granularity history, outside any structural rule',
     'C14-r5-2': 'accept set computed by the metaclass at import time '
                 '(C01/C02/C15 decline with exit 2)',
     'C09-r6-2': 'breaks reload behaviour without a main file (C10.RESET, '
